@@ -17,6 +17,7 @@ class Snapshot:
         self.tok_ids = [id(t) for t in self.toks]
         self.tok_texts = [t.raw_text for t in self.toks]
         self.claimed = [(id(t), bool(t.claimed)) for t in self.toks if isinstance(t, models.BlockComment)]
+        self.meta_items = None
         self.struct = None
         self.parent = None
         if op is not None and op.get('parent') is not None:
@@ -39,6 +40,11 @@ class Snapshot:
                                            for name, kind, v in intro.field_values(pm) if isinstance(v, internal.Repeated)}
             except Exception:
                 self.parent = None
+        if self.parent is not None and hasattr(self.parent, 'raw_meta') and not isinstance(self.parent, base.RawTokenModel):
+            try:
+                self.meta_items = [(id(x), x.key) for x in self.parent.raw_meta]
+            except Exception:
+                self.meta_items = None
         # the models whose public attributes are read before the op (so that every cached view exists when it runs) and
         # compared with a deep copy after it: the edited model and the receiver of the call
         self.watch = []
@@ -203,6 +209,24 @@ def o_frame(root, pre, op, res, extra):
                         continue  # in-place value update of an item is the edit itself
                     if intro.pr(x) != txt:
                         out.append((f'frame:item-text:{kind}:{type(pm).__name__}.{name}', 'an untouched item changed its text'))
+                        break
+    # a key designates the FIRST meta item carrying it: that one, and no other, is removed / replaced / updated
+    if kind in ('meta-delkey', 'meta-popkey', 'meta-setkey') and pre.meta_items is not None and hasattr(pm, 'raw_meta'):
+        key = op['idx'] if 'idx' in op else op['args'][0]['v']
+        designated = next((i for i, k2 in pre.meta_items if k2 == key), None)
+        now_items = list(pm.raw_meta)
+        now_ids = [id(x) for x in now_items]
+        gone = [i for i, _ in pre.meta_items if i not in now_ids]
+        if designated is not None:
+            if kind in ('meta-delkey', 'meta-popkey') and gone != [designated]:
+                out.append((f'frame:key-hit-another-item:{kind}', f'key {key!r} designates the first item carrying it; the call removed '
+                            f'{"another item" if gone and designated not in gone else "more than that item" if gone else "nothing"} '
+                            f'(items before: {[k2 for _, k2 in pre.meta_items]})'))
+            if kind == 'meta-setkey':
+                texts0 = dict(pre.item_texts.get('_meta', []))
+                for x in now_items:
+                    if id(x) != designated and id(x) in texts0 and intro.pr(x) != texts0[id(x)]:
+                        out.append((f'frame:key-hit-another-item:{kind}', f'assigning through key {key!r} changed an item the key does not designate'))
                         break
     # optional / required slots: exactly the child and its declared separators appear / disappear
     if kind in ('opt-set', 'req-set') and not isinstance(pm, base.RawTokenModel):
